@@ -1909,7 +1909,7 @@ fn main() {
             if !c.authenticated() && !c.authenticated_for_bystander() && o.socket_changed {
                 k.socket_changed_unauthenticated += 1;
             }
-            k.barrier_fallbacks += u64::from(!o.barrier_ok);
+            k.barrier_fallbacks += u64::from(!o.barrier_ok && c.st != St::Restarted);
             k.processed += u64::from(o.barrier_ok || o.answer != "none");
             k.violating += u64::from(o.violates);
         }
